@@ -263,7 +263,7 @@ def prepare(descs, seed, n, logf, use_cache=True):
         else:
             cls = "construct_panic" if s.get("stage", 0) == 0 else "gen_panic"
             verdict[d["name"]] = {"cls": cls, "code": "stage%d" % s.get("stage", 0), "message": s["message"],
-                                  "detail": s["message"][-1500:]}
+                                  "detail": s["message"][-1500:], "api": s.get("api", "")}
     json.dump(verdict, open(cfile, "w"))
     return verdict, st
 
@@ -307,7 +307,8 @@ RULE_C41 = ("Programs come from a typed combinator grammar (hv_gen_flows/gen/gen
             "a rustc error in the Hydro-level source and is classified as a grammar defect, never as a finding). Each "
             "program is compiled by the production generate_embedded (IR emission + partition_graph per location) under "
             "catch_unwind, and the emitted Rust is compiled by rustc. Judged: no panic/diagnostic from the generator, "
-            "rustc accepts the generated code. Non-trivial = distinct program text with >= 3 distinct operators.")
+            "rustc accepts the generated code. A small fixed corpus of hand-written minimal programs (one per defect met so "
+            "far) is compiled along with the random ones. Non-trivial = distinct program text with >= 3 distinct operators.")
 
 
 def _c41_judge(descs, verdict, viols, counters, opcov, samples, distinct):
@@ -316,6 +317,8 @@ def _c41_judge(descs, verdict, viols, counters, opcov, samples, distinct):
         v = verdict.get(d["name"], {"cls": "missing", "message": "", "code": "", "detail": ""})
         cls = v["cls"]
         counters["programs_" + cls] = counters.get("programs_" + cls, 0) + 1
+        if d.get("probe"):
+            counters.setdefault("corpus", {})[d["probe"]] = cls
         if cls in ("ok", "gen_panic", "construct_panic", "rustc_generated"):
             judged += 1
             good = cls == "ok"
@@ -333,14 +336,16 @@ def _c41_judge(descs, verdict, viols, counters, opcov, samples, distinct):
             if cls == "gen_panic":
                 viols.append({"t": "violation", "prop": "C41",
                               "sig": "C41|generate_embedded|panic|" + _msg_class(v["message"]),
-                              "what": "generate_embedded panicked for well-typed program %s: %s" % (d["name"], v["message"][:400]),
+                              "what": "generate_embedded panicked for well-typed program %s%s: %s"
+                                      % (d["name"], " [corpus: %s]" % d["probe"] if d.get("probe") else "", v["message"][:400]),
                               "case": _case("C41", d, {"observed": v["message"][:2000]})})
             elif cls == "construct_panic":
                 # the program type-checked, yet building its IR through the public API panicked
                 viols.append({"t": "violation", "prop": "C41",
-                              "sig": "C41|flow construction|panic|" + _msg_class(v["message"]),
-                              "what": "building the IR of well-typed program %s panicked (before generate_embedded): %s"
-                                      % (d["name"], v["message"][:400]),
+                              "sig": "C41|flow construction|panic|%s|%s" % (v.get("api") or "?", _msg_class(v["message"])),
+                              "what": "building the IR of well-typed program %s%s panicked in %s (before generate_embedded): %s"
+                                      % (d["name"], " [corpus: %s]" % d["probe"] if d.get("probe") else "",
+                                         v.get("api") or "?", v["message"][:400]),
                               "case": _case("C41", d, {"observed": v["message"][:2000]})})
             elif cls == "rustc_generated":
                 viols.append({"t": "violation", "prop": "C41",
@@ -387,7 +392,8 @@ def run_c41(prop, tier, seed, logf, replay):
                      "feature_forward_ref", "feature_tee"):
             if counters.get(feat, 0) < 1:
                 min_fail.append("no judged program with " + feat)
-        extra = {"counters": counters, "operator_coverage": opcov, "programs_generated": n, "programs_judged": judged,
+        extra = {"counters": counters, "operator_coverage": opcov, "programs_generated": n, "corpus_programs": len(descs) - n,
+                 "programs_judged": judged,
                  "generator_version": g.GEN_VERSION}
         return [_summary("C41", judged, len(distinct), RULE_C41, samples, extra, min_fail, len(viols), "codegen")], viols
 
